@@ -71,7 +71,13 @@ ErrClasses   == {"none", "dup_path"}
 
 Chs     == {"bare", "inbound", "outbound", "internal"}
 Forms   == {"bare", "single", "wrapper", "wrapjoin"}
-Pqs     == {"bare", "quoted", "qspace", "qph"}
+Pqs     == {"bare",      \* /hooks/p1
+            "quoted",    \* "/hooks/p1"
+            "qspace",    \* quoted, blank inside
+            "qph",       \* "{$VAR}" (a bare placeholder does not start with '/', so it is no route)
+            "qhash",     \* quoted, '#' inside
+            "qesc",      \* quoted, \" and \\ escapes
+            "qbad"}      \* quoted, not starting with '/' (or empty): parses, refused by Compile
 PathIds == {"p1", "p2", "p3", "p4"}
 IMAX    == 3
 
@@ -408,7 +414,7 @@ SeededInvalid(p) ==
       /\ \/ ~\E r \in DOMAIN p.routes : RouteHas(S, r, "r.pull")
          \/ \E r \in DOMAIN p.routes : RouteHas(S, r, "r.pull") /\ ~RouteHas(S, r, "r.pull.auth_token"))
   \/ (HasItem(S, 0, "ingress.rate_limit", 1) /\ ~HasItem(S, 0, "ingress.rate_limit.rps", 1))
-  \/ \E r \in DOMAIN p.routes : RouteInvalid(S, p.routes, r)
+  \/ \E r \in DOMAIN p.routes : RouteInvalid(S, p.routes, r) \/ p.routes[r].pq = "qbad"
 
 \* features whose acceptance depends on rules between several directives
 CrossRule == {"ingress.tls", "pull_api.tls", "admin_api.tls", "obs.tracing.tls", "obs.tracing.retry",
